@@ -19,7 +19,6 @@ package main
 import (
 	"fmt"
 	"go/types"
-	"os"
 	"strings"
 
 	"golang.org/x/tools/go/ssa"
@@ -137,9 +136,10 @@ func refTerminating(s *shape) bool {
 // ---- abstract AST construction
 
 type shapeBuilder struct {
-	r      *rwRT
-	st     *State
-	panics map[string]AV
+	r          *rwRT
+	st         *State
+	panics     map[string]AV
+	panicCalls []AV // the call nodes themselves, in source order
 }
 
 func (b *shapeBuilder) node(kind string, f map[string]AV) AV {
@@ -169,6 +169,7 @@ func (b *shapeBuilder) build(s *shape) AV {
 		call := b.node("CallExpr", map[string]AV{"Fun": b.node("Ident", map[string]AV{"Name": mkString(s.K)})})
 		if s.K == "panic" {
 			b.panics[call.(Dyn).V.String()] = mkBool(true)
+			b.panicCalls = append(b.panicCalls, call)
 		}
 		return b.node("ExprStmt", map[string]AV{"X": call})
 	case "break":
@@ -341,8 +342,16 @@ func (r *rwRT) ruleTerm() {
 	c.min("RW.TERM", 2)
 	c.min("RW.EXH", 1)
 	fn := r.w.MethodOpt(pathRw, "terminationChecker", "isTerminating")
-	if fn == nil {
-		undecided("method terminationChecker.isTerminating not found")
+	// the checker as an object of its own with a constructor — or, when it is organised otherwise (plain functions
+	// taking the set of panic call sites, …), whatever the rewriter's own entry point isTerminating(stmt) does: it is
+	// then evaluated from there, with the matcher's search for calls of the predeclared panic answered by the
+	// shape's panic call sites
+	viaEntry := fn == nil || r.w.FuncOpt(pathRw, "mkTerminationChecker") == nil
+	if viaEntry {
+		fn = r.w.MethodOpt(pathRw, "yieldRewriter", "isTerminating")
+		if fn == nil {
+			undecided("neither terminationChecker.isTerminating nor yieldRewriter.isTerminating found")
+		}
 	}
 	c.fn(relName(fn))
 	pos := r.w.FnPos(fn)
@@ -355,6 +364,45 @@ func (r *rwRT) ruleTerm() {
 		root := b.build(sh)
 		// The checker is built by its own constructor from "which calls are calls of the predeclared panic":
 		// a set of call sites, or a predicate over call sites — whichever the constructor takes.
+		if viaEntry {
+			calls := b.panicCalls
+			in := r.interp(rwConfig{root: fn, inlineAll: true, astWalk: true, noOracles: true})
+			in.MaxDepth, in.MaxRecur, in.MaxVisits = 40, 12, 64
+			prev := in.OnCall
+			in.OnCall = func(cc *CallCtx) []Answer {
+				if cc.Fn != nil && cc.Fn.Name() == "Unparen" && len(cc.Args) == 1 {
+					return []Answer{{Ret: []AV{cc.Args[0]}, NoEvent: true}}
+				}
+				// m.Match(pkg, <calls of the predeclared panic>, stmt, callback): the callback sees every panic call site
+				if (cc.Method == "Match" || cc.Fn != nil && cc.Fn.Name() == "Match") && len(cc.Args) >= 1 {
+					if cl, ok := cc.Args[len(cc.Args)-1].(Closure); ok {
+						var inv []Invocation
+						for i := range calls {
+							inv = append(inv, Invocation{Fn: cl, Args: []AV{Sym{Name: fmt.Sprintf("matchcursor:%d", i), NN: true}, Sym{Name: "matchctx", NN: true}}})
+						}
+						return []Answer{{Invoke: inv, NoEvent: true}}
+					}
+				}
+				if cc.Fn != nil && cc.Fn.Name() == "Node" && len(cc.Args) == 1 {
+					if sy, ok := cc.Args[0].(Sym); ok && strings.HasPrefix(sy.Name, "matchcursor:") {
+						var i int
+						fmt.Sscanf(strings.TrimPrefix(sy.Name, "matchcursor:"), "%d", &i)
+						if i < len(calls) {
+							return []Answer{{Ret: []AV{calls[i]}, NoEvent: true}}
+						}
+					}
+				}
+				if prev != nil {
+					return prev(cc)
+				}
+				return nil
+			}
+			outs := in.Run(b.st, fn, []AV{Sym{Name: "r", NN: true}, root}, nil)
+			r.account(in)
+			evaluated++
+			r.judgeTerm(sh, outs, pos, &over, &under, &panicsOnSupported, &overEx, &underEx, &panicEx)
+			continue
+		}
 		mkChk := r.w.FuncOpt(pathRw, "mkTerminationChecker")
 		if mkChk == nil || mkChk.Signature.Params().Len() != 1 {
 			undecided("constructor mkTerminationChecker(<panic call sites>) not found")
@@ -392,50 +440,12 @@ func (r *rwRT) ruleTerm() {
 		in := r.interp(rwConfig{root: fn, inlineAll: true, astWalk: true})
 		in.MaxDepth = 40
 		in.MaxRecur = 12
-		in.MaxVisits = 8
+		in.MaxVisits = 64 // a work-list loop over the statements of a shape
 		in.OnCall = oracle(in.OnCall)
 		outs := in.Run(co[0].St, fn, []AV{chk, root}, nil)
 		r.account(in)
 		evaluated++
-		want := refTerminating(sh)
-		if len(outs) != 1 {
-			c.und("RW.TERM", "shape "+sh.String(), pos, fmt.Sprintf("%d abstract paths for a concrete shape", len(outs)))
-			continue
-		}
-		o := outs[0]
-		if o.Panicked {
-			panicsOnSupported++
-			if len(panicEx) < 4 {
-				note := ""
-				for _, e := range o.St.Events {
-					if e.Kind == "panic" {
-						note = e.Note
-					}
-				}
-				panicEx = append(panicEx, sh.String()+"  -> panic "+note)
-			}
-			continue
-		}
-		got, known := asBool(o.Ret[0])
-		if !known {
-			c.und("RW.TERM", "shape "+sh.String(), pos, "result is not a constant: "+o.Ret[0].String())
-			continue
-		}
-		if got && !want && os.Getenv("VERIF_DEBUG_TERM") != "" && sh.String() == "for {break}" {
-			fmt.Fprintf(os.Stderr, "TERM %s: %s\n", sh, pathSummary(o))
-		}
-		if got && !want {
-			over++
-			if len(overEx) < 4 {
-				overEx = append(overEx, sh.String())
-			}
-		}
-		if !got && want {
-			under++
-			if len(underEx) < 4 {
-				underEx = append(underEx, sh.String())
-			}
-		}
+		r.judgeTerm(sh, outs, pos, &over, &under, &panicsOnSupported, &overEx, &underEx, &panicEx)
 	}
 	c.check(over == 0, "RW.TERM", "no over-approximation of 'terminating'", pos,
 		fmt.Sprintf("%d statement shapes: whenever the checker says terminating, the Go spec agrees (so no thunk loses its final return)", evaluated),
@@ -447,6 +457,52 @@ func (r *rwRT) ruleTerm() {
 	c.check(under*4 < evaluated, "RW.TERM", "precision", pos,
 		fmt.Sprintf("%d of %d shapes judged non-terminating although the spec says terminating (harmless: a redundant return)", under, evaluated),
 		fmt.Sprintf("%d of %d terminating shapes are no longer recognised, e.g. %s", under, evaluated, strings.Join(underEx, " | ")))
+}
+
+
+// judgeTerm compares the checker's answer for one concrete shape with the Go specification's.
+func (r *rwRT) judgeTerm(sh *shape, outs []Outcome, pos string, over, under, panicsOnSupported *int, overEx, underEx, panicEx *[]string) {
+	c := r.c
+	want := refTerminating(sh)
+	if len(outs) != 1 {
+		why := fmt.Sprintf("%d abstract paths for a concrete shape", len(outs))
+		if len(outs) >= 2 {
+			why += ": " + pathSummary(outs[0]) + " || " + pathSummary(outs[1])
+		}
+		c.und("RW.TERM", "shape "+sh.String(), pos, why)
+		return
+	}
+	o := outs[0]
+	if o.Panicked {
+		*panicsOnSupported++
+		if len(*panicEx) < 4 {
+			note := ""
+			for _, e := range o.St.Events {
+				if e.Kind == "panic" {
+					note = e.Note
+				}
+			}
+			*panicEx = append(*panicEx, sh.String()+"  -> panic "+note)
+		}
+		return
+	}
+	got, known := asBool(o.Ret[0])
+	if !known {
+		c.und("RW.TERM", "shape "+sh.String(), pos, "result is not a constant: "+o.Ret[0].String())
+		return
+	}
+	if got && !want {
+		*over++
+		if len(*overEx) < 4 {
+			*overEx = append(*overEx, sh.String())
+		}
+	}
+	if !got && want {
+		*under++
+		if len(*underEx) < 4 {
+			*underEx = append(*underEx, sh.String())
+		}
+	}
 }
 
 // ------------------------------------------------------------------ RW.KINDTAB
@@ -530,7 +586,7 @@ func (r *rwRT) ruleKindTab() {
 		c.fn(relName(fn))
 		recv, st := mkBlockObj(bk, ks)
 		in := r.interp(rwConfig{root: fn, inlineAll: true})
-		in.MaxVisits = 8
+		in.MaxVisits = 64 // a work-list loop over the statements of a shape
 		outs := in.Run(st, fn, []AV{recv}, nil)
 		r.account(in)
 		if len(outs) != 1 {
@@ -610,7 +666,7 @@ func (r *rwRT) ruleKindTab() {
 			return nil, false
 		}
 		in := r.interp(rwConfig{root: gen, boundaries: map[string]bool{"generateLastNormalIfNecessary": false}})
-		in.MaxVisits = 8
+		in.MaxVisits = 64 // a work-list loop over the statements of a shape
 		callNormal := Sym{Name: "callNormal", NN: true}
 		in.Fields["r.yieldAst.callNormal"] = callNormal
 		in.OnCall = wrapOnCall(in.OnCall, func(cc *CallCtx) []Answer {
